@@ -115,6 +115,11 @@ func (C10) Gen(r *simrt.RNG, tier string) core.Case {
 	if r.Chance(1, 5) {
 		ty = world.IfaceBase + r.Intn(world.NumIface)
 	}
+	if (ty == world.IfaceBase || world.Implements(ty, world.IfaceBase)) && r.Chance(1, 3) {
+		// a pointer to an interface type is an ordinary concrete type: values that
+		// implement the interface are not assignable to it
+		ty = world.PtrIface
+	}
 	id := world.Party{InForm: world.FormPositional, OutForm: world.FormPositional,
 		In: []world.Slot{{Label: world.Label{Type: ty}}}, Out: nil, Defaults: nil}
 	args := append(append([]int{}, w.Parties[0].Defaults...), w.Ops[0].Args...)
